@@ -193,7 +193,7 @@ func runDriver(sr scenarioRunner, args map[string]string) {
 		return
 	}
 	rng := rand.New(rand.NewSource(seed))
-	strategies := []string{"random", "pct", "random", "pct"}
+	strategies := []string{"hold", "random", "hold", "pct"}
 	reps := 1
 	if mode == "c" && sr.reps > 0 {
 		reps = sr.reps
